@@ -96,6 +96,9 @@ structure Inst where
   shape : Shape
   q : Nat
   small : Bool
+  /-- a tower one of whose base layers has `SQRT_PRECOMP = None` (Fp12 over Fp6 = 3 over 2): the field has no
+      square-root algorithm, every `sqrt` ends in `unimplemented!()`; outside the quantifier of the property -/
+  noAlg : Bool := false
   squares : Thunk (Array Bool)
   model : String → List String → Option String
 
@@ -523,7 +526,8 @@ def buildFp12 (n p : Nat) (pre1 : Pre) (hooks2 : String) (nr2 : Nat) (tbl2 : Lis
   let D12 := Quad.fieldD q12 D6
   let S12 := quadSqrtD dbg q12 D6 S6 PD
   let sh : Shape := .ext 2 nr12 (.ext 3 nr6 (.ext 2 [nr2] .prime))
-  some { inst := mkInst p sh (genModel D12 S12), modelPre := "none", verdict := preVerdict p sh impl true }
+  some { inst := { mkInst p sh (genModel D12 S12) with noAlg := true }, modelPre := "none",
+         verdict := preVerdict p sh impl true }
 
 def build (kind : String) (n p : Nat) (rest : List String) (impl : String) : Option Built := do
   match kind, rest with
@@ -567,11 +571,14 @@ def run (cache : Cache) (op : String) (args : List String) (impl : String) :
       else some (id, rest)
     let I ← (cache.insts.find? (fun e => e.1 == fid)).map (·.2)
     let m ← I.model op args'
-    let t ← target I op args'
-    let key := id ++ " " ++ hexList t
-    let eu := if cache.lastKey == key then cache.lastEuler else euler I t
-    let v ← fieldVerdict I eu op args' impl
-    some ({ cache with lastKey := key, lastEuler := eu }, m, v)
+    if I.noAlg && (op == "sqrt" || op == "sqrtip") && m == "panic" && impl == "panic" then
+      some (cache, m, "note:no-sqrt-algorithm-for-base")
+    else
+      let t ← target I op args'
+      let key := id ++ " " ++ hexList t
+      let eu := if cache.lastKey == key then cache.lastEuler else euler I t
+      let v ← fieldVerdict I eu op args' impl
+      some ({ cache with lastKey := key, lastEuler := eu }, m, v)
   | _, _ => none
 
 end Ark.DrvC11
